@@ -150,3 +150,10 @@ native_unit("hash_native", "winter-crypto", "crypto", "native/hash_bounded.rs", 
             ["Blake3_256::{hash, merge, merge_with_int, hash_elements}", "Blake3_192::{hash, merge, merge_with_int, hash_elements}", "Sha3_256::{hash, merge, merge_with_int, hash_elements}", "ByteDigest::digests_as_bytes", "FieldElement::elements_as_bytes"],
             "the byte-oriented hashers equal their documented definition computed directly with the blake3 / sha3 crates: hash(bytes) == H(bytes) (24-byte truncation for Blake3_192); merge([a, b]) == H(a || b); merge_with_int(seed, v) == H(seed || le64(v)); hash_elements == H(canonical little-endian encodings of the residues) whatever the internal representation (Montgomery words, lazy f62 representatives) and whether the residues are typed as base or as quadratic / cubic extension elements",
             "NATIVE EXECUTION, not a proof: 3 hashers x 3 base fields; byte strings of every length 0..=200 (seeded content); 40 seeded digest pairs x 17 integers at the 64-bit boundaries and around the moduli; element lists of 0..=20 elements produced by additions, negations, subtractions and products (non-normalised representatives), regrouped into quadratic / cubic elements")
+
+
+native_unit("rescue_native", "winter-crypto", "crypto", "native/rescue_bounded.rs", ["C11"],
+            ["Rp64_256::{apply_round, apply_permutation, hash_elements, merge}", "RpJive64_256::{apply_round, apply_permutation, hash_elements}", "the private helpers behind them: apply_sbox, apply_inv_sbox (exponentiation chains), apply_mds (frequency-domain fast path), add_constants"],
+            "every round and the 7-round permutation equal the documented Rescue Prime round ARK2[r] + MDS * ((ARK1[r] + MDS * s^7)^(1/7)) computed independently over 128-bit reference arithmetic from the public MDS / ARK constants; hash_elements (and Rp64_256::merge) equal the documented sponge run on the reference permutation",
+            "NATIVE EXECUTION, not a proof: 16 boundary values (0, 1, p-1, 2^32-1, 2^32, 2^63-1, ...) in every lane together, alone in each lane over zeros and over p-1, 300 seeded states, each x 7 rounds + the permutation; sponges on lists of 0..20 elements x 6 draws",
+            timeout=900)
